@@ -7,6 +7,7 @@ import Rustemo.Proofs.TLR
 import Rustemo.Props.Example
 import Rustemo.Props.C02
 import Rustemo.Props.C03
+import Rustemo.Props.C14
 /-!
 # C01 / C04 (C02, C13–C15 hypotheses) — the table CONSTRUCTION inside the model
 
@@ -189,6 +190,24 @@ theorem C03_construction_engine_sound_partial (g : Grammar) (hg : gwf g = true) 
   obtain ⟨n, hv, _⟩ := Rustemo.Glr.result_trees_ok hr i tr ht
   exact ⟨hv, Tree.complete_elided env.g tr _ hv⟩
 
+/-- **C14 round trip over tables of the construction** (LALR, LALR_PAGER; built-in whitespace skipping on or off; no
+    Layout rule).  The structural certificate of `C14_roundtrip` is discharged by `construction_structural`; what
+    stays an executable hypothesis is `Cert.noShiftStop` (no SHIFT in the STOP column), not yet proved of the
+    construction — hence `_partial`.  Then for every well-formed grammar, every recognizer family satisfying
+    `RecogOk`, every input and fuel: token values and stored layout of the tree, concatenated in order, are exactly
+    the consumed prefix of the input. -/
+theorem C14_construction_roundtrip_partial (g : Grammar) (hg : gwf g = true) (s : Settings) (fuelT : Nat)
+    (t : Table) (h : build g s fuelT = .ok t) (htt : s.tableType ≠ "LALR_RN")
+    (env : Env) (heg : env.g = g) (het : env.t = t)
+    (hc : env.custom = none) (hl : t.layoutState = none) (hr : RecogOk env)
+    (hstop : Cert.noShiftStop t = true)
+    (partialParse : Bool) (fuel : Nat) (ctx : Ctx) (r : ParseResult)
+    (hrun : parse env partialParse fuel = (ctx, .ok r)) :
+    Tree.flat env.input r.tree ++ layBytes env.input ctx.lay = env.input.take ctx.pos.pos := by
+  subst heg het
+  exact Props.C14.C14_roundtrip env hc hl hr hstop
+    (construction_structural env.g hg s fuelT env.t h htt) partialParse fuel ctx r hrun
+
 /-! ## non-vacuity: `S: 'a' S | EMPTY` -/
 
 /-- the grammar of `Props/Example.lean` with its terminal records (STOP, `a`) -/
@@ -234,5 +253,10 @@ example : okAnd (build gT { tableType := "LALR_RN", glr := true } 20)
       (match Rustemo.Glr.parse { Example.env with g := gT, t := t } false 100 with
        | .ok r => (r.getTree 0).isSome
        | _ => false)) = true := by decide +kernel
+
+/-- the hypotheses of `C14_construction_roundtrip_partial` are met on the constructed table (the successful run
+    is the example above; `RecogOk` mentions only `recog` and `input`, those of `Example.env`: example in `Props/C13.lean`) -/
+example : okAnd (build gT lalr 20) (fun t => Cert.noShiftStop t && t.layoutState.isNone) = true := by
+  decide +kernel
 
 end Rustemo.Props.C04Construction
